@@ -173,6 +173,14 @@ func Explicit(mods []*Mod) []*Mod {
 	}
 	for _, m := range out {
 		walk(m.Nodes, "", "", false)
+		// (the nodes of a notification, and of the input and output of an rpc, inherit its status)
+		for _, r := range m.Rpcs {
+			walk(r.Input, "", r.Status, false)
+			walk(r.Output, "", r.Status, false)
+		}
+		for _, n := range m.Notifs {
+			walk(n.Kids, "", n.Status, false)
+		}
 	}
 	return out
 }
